@@ -295,7 +295,13 @@ def evaluate(mod, cases, result, known, proof_problems):
             distinct.add(hashlib.sha1(canon(case).encode('utf-8')).digest()[:10])
         if len(samples) < 3 or (len(samples) < 8 and mod.nontrivial(case, io) and hist.total() % 97 == 0):
             samples.append({'case': case, 'impl': io, 'model': mo})
-        agree = canon(getattr(mod, 'compare_view', lambda x: x)(io)) == canon(mo)
+        view = getattr(mod, 'compare_view', lambda x: x)(io)
+        rec = getattr(mod, 'reconcile', None)
+        if rec is not None:
+            # observations of PRIVATE state (e.g. a cache read through closure cells) that the tree under test does not expose
+            # in the expected shape are dropped from both sides instead of being compared as "absent"
+            view, mo = rec(case, view, mo)
+        agree = canon(view) == canon(mo)
         fails = mod.oracle(case, io, rep)
         if fails:
             failures.append((case, io, mo, fails))
